@@ -91,6 +91,21 @@ Theorem C11b_hand_off_instances :
 Proof. exact loop_writers_chan_instances. Qed.
 Print Assumptions C11b_hand_off_instances.
 
+(* the other interceptors whose loop writes RTCP (nack generator, report receiver/sender, intervalpli) have no
+   blocking hand-off: a packet Read/Write never parks there, in any state, whatever the extra bits say - a
+   loop that gave up after a write error cannot strand a caller (it only stops reporting, which C11 does not
+   forbid) *)
+Theorem C11b_traffic_never_parks_without_hand_off : forall xc s t x s', no_blocking_hand_off (x_base xc) = true ->
+  xstep xc s (XL (Call t (OTraffic x))) = Some s' -> bfind t (blocked s') = None.
+Proof. exact x_traffic_never_parks. Qed.
+Print Assumptions C11b_traffic_never_parks_without_hand_off.
+
+Theorem C11b_no_blocking_hand_off_instances :
+  forallb no_blocking_hand_off [nack_generator_cfg; nack_responder_cfg; report_receiver_cfg; report_sender_cfg;
+    intervalpli_cfg; stats_cfg; pacing_cfg; gcc_cfg; jitterbuffer_cfg; flexfec_cfg; chain_cfg] = true.
+Proof. exact no_blocking_hand_off_instances. Qed.
+Print Assumptions C11b_no_blocking_hand_off_instances.
+
 (* seeded change (twcc loop returns after a failed feedback write): BindRTCPWriter, a packet, the feedback
    write fails, the loop returns; the next Read parks although the interceptor is open and stays parked in
    EVERY continuation that contains neither a Close nor another BindRTCPWriter (invariant, not search) *)
@@ -109,6 +124,18 @@ Example C11b_twcc_plain_not_stranded : exists s,
                       XL (Call 1 (OTraffic 1))] = Some s /\ blocked s = [] /\ closed s = false.
 Proof. exact twcc_plain_not_stranded. Qed.
 Print Assumptions C11b_twcc_plain_not_stranded.
+
+(* new finding of this round (fixed by a fix: commit): gcc - cc.Interceptor had no UnbindLocalStream, the
+   pacer kept the writer of an unbound stream for ever: the per-stream state is NOT released by Unbind.
+   The record gcc_cfg of Model/Lifecycle.v is the one after the fix (covered by C11_unbind_releases_partial). *)
+Theorem C11b_gcc_unbind_keeps_writer_refuted : exists tr s,
+  run gcc_nounbind_cfg (init gcc_nounbind_cfg) tr = Some s /\ In 1 (dead s) /\ tfind 1 (table s) <> None.
+Proof. exact gcc_nounbind_keeps_entry. Qed.
+Print Assumptions C11b_gcc_unbind_keeps_writer_refuted.
+
+Theorem C11b_gcc_unbind_safe_after_fix : unbind_safe gcc_cfg = true /\ unbind_safe gcc_nounbind_cfg = false.
+Proof. exact gcc_unbind_safe. Qed.
+Print Assumptions C11b_gcc_unbind_safe_after_fix.
 
 (* the oracle of the gated runs reports no code exactly when the property text holds on the observation *)
 Theorem C11b_gate_oracle_sound : forall obs, gate_codes obs = [] <-> gate_ok obs.
